@@ -595,6 +595,18 @@ func (z *Z) doc(d Doc) string {
 		carry = append(carry, b)
 	}
 	flush()
+	// the closing fence may be omitted when the fenced block is the very last thing in the document
+	// (the block then runs to the end of the document); a trailing blank content line would be lost
+	// together with a missing final line ending, so such blocks keep their fence
+	if n := len(d.Blocks); n > 0 && len(slots[n]) == 0 && len(groups) > 0 {
+		if f, ok := d.Blocks[n-1].(FCode); ok && (len(f.Lines) == 0 || f.Lines[len(f.Lines)-1] != "") && coin(z.s, 1, 3) {
+			g := groups[len(groups)-1]
+			if len(g) >= 2 {
+				groups[len(groups)-1] = g[:len(g)-1]
+				z.note("fence-unclosed-at-eof")
+			}
+		}
+	}
 	emit(len(d.Blocks))
 	var parts []string
 	for _, g := range groups {
